@@ -414,8 +414,13 @@ def extract_wrappers():
                     v = st.value
                     if isinstance(v, ast.Name) and v.id in env:
                         v = env[v.id]
-                    if isinstance(v, ast.Call) and ast.unparse(v.func) == np_name and not v.keywords:
-                        ok = [ast.unparse(a) for a in v.args]
+                    if isinstance(v, ast.Call) and ast.unparse(v.func) == np_name:
+                        # keywords are placed where NumPy's signature puts them
+                        order = {'np.random.uniform': ['low', 'high', 'size'], 'np.random.normal': ['loc', 'scale', 'size']}[np_name]
+                        slots = [ast.unparse(a) for a in v.args]
+                        kw = {k.arg: ast.unparse(k.value) for k in v.keywords}
+                        if all(k in order[len(slots):] for k in kw) and all(k in kw for k in order[len(slots):len(slots) + len(kw)]):
+                            ok = slots + [kw[k] for k in order[len(slots):len(slots) + len(kw)]]
             out[name] = dict(params=params, defaults=defaults, call=ok)
         else:
             out[name] = dict(params=[], defaults=[], call=[])
@@ -436,12 +441,21 @@ def extract_bernoulli():
                 res['low'], res['high'] = a[0], a[1]
         if isinstance(n, ast.For):
             res['loop'] = ast.unparse(n.iter)
+            zipped = None
+            if ast.unparse(n.iter) == 'zip(range(size), r1)' and isinstance(n.target, ast.Tuple) and len(n.target.elts) == 2 \
+                    and all(isinstance(e, ast.Name) for e in n.target.elts) and n.target.elts[0].id == 'i':
+                # the same indices with the draw bound alongside
+                res['loop'] = 'range(size)'
+                zipped = n.target.elts[1].id
             ifs = [s for s in n.body if isinstance(s, ast.If)]
             others = [s for s in n.body if not isinstance(s, ast.If) and not (isinstance(s, ast.Assign) and ast.unparse(s.value) == 'r1[i]')]
             if len(ifs) == 1 and not others:
                 i = ifs[0]
                 if isinstance(i.test, ast.Compare) and len(i.test.ops) == 1:
                     l, rr = ast.unparse(i.test.left), ast.unparse(i.test.comparators[0])
+                    if zipped:
+                        l = 'r1[i]' if l == zipped else l
+                        rr = 'r1[i]' if rr == zipped else rr
                     # a local holding r1[i]
                     for a_ in n.body:
                         if isinstance(a_, ast.Assign) and len(a_.targets) == 1 and isinstance(a_.targets[0], ast.Name) and ast.unparse(a_.value) == 'r1[i]':
@@ -471,6 +485,23 @@ def extract_tournament():
     body_ = [s_ for s_ in f.body if not (isinstance(s_, ast.Expr) and isinstance(s_.value, ast.Constant))]
     res['returns_selected'] = (len(body_) == 3 and ast.unparse(body_[0]) == 'selected = []' and isinstance(body_[1], ast.For)
                                and not body_[1].orelse and ast.unparse(body_[2]) == 'return selected')
+    if len(body_) == 1 and isinstance(body_[0], ast.Return) and isinstance(body_[0].value, ast.ListComp) and len(body_[0].value.generators) == 1 \
+            and not body_[0].value.generators[0].ifs:
+        # the whole function as one comprehension over the rounds (what the normal forms make of an inlined round helper)
+        lc = body_[0].value
+        res['rounds'] = ast.unparse(lc.generators[0].iter)
+        res['returns_selected'] = True
+        pk = lc.elt
+        comps = [m for m in ast.walk(pk) if isinstance(m, ast.ListComp)]
+        if len(comps) == 1 and len(comps[0].generators) == 1:
+            res['draws'] = ast.unparse(comps[0].generators[0].iter)
+            res['source'] = ast.unparse(comps[0].elt)
+            class _Step0(ast.NodeTransformer):
+                def visit_ListComp(self, m):
+                    return ast.Name(id='step', ctx=ast.Load())
+            import copy as _copy1
+            res['pick'] = ast.unparse(_Step0().visit(_copy1.deepcopy(pk)))
+        return res
     for n in ast.walk(f):
         if isinstance(n, ast.For) and n in f.body:
             res['rounds'] = ast.unparse(n.iter)
@@ -490,6 +521,16 @@ def extract_tournament():
                 if isinstance(st, ast.Expr) and isinstance(st.value, ast.Call) and ast.unparse(st.value.func) == 'selected.append' \
                         and len(st.value.args) == 1:
                     pk = st.value.args[0]
+                    # the round's list of drawn values written in place (a helper that was a chain of assignments)
+                    comps = [m for m in ast.walk(pk) if isinstance(m, ast.ListComp)]
+                    if len(comps) == 1 and len(comps[0].generators) == 1 and res['draws'] == '?':
+                        res['draws'] = ast.unparse(comps[0].generators[0].iter)
+                        res['source'] = ast.unparse(comps[0].elt)
+                        class _Step(ast.NodeTransformer):
+                            def visit_ListComp(self, m):
+                                return ast.Name(id='step', ctx=ast.Load())
+                        import copy as _copy0
+                        pk = _Step().visit(_copy0.deepcopy(pk))
                     class Sub(ast.NodeTransformer):
                         def visit_Name(self, m):
                             return ast.parse(loc[m.id], mode='eval').body if m.id in loc else m
